@@ -159,9 +159,21 @@ let rcall_str (c : z rcall) : string =
   | RDraw (x0, y0, x1, y1, p) ->
       Printf.sprintf "d %d,%d,%d,%d %s" (int_of_z x0) (int_of_z y0) (int_of_z x1) (int_of_z y1) (paint_str p)
 
+(* renderer tokens with "SR x0 y0 w h" (SetRasterizer in the middle of the script) *)
+let rec rrun_toks s toks =
+  let rec upto acc = function
+    | "SR" :: a :: b :: c :: d :: r -> (List.rev acc, Some (a, b, c, d, r))
+    | x :: r -> upto (x :: acc) r
+    | [] -> (List.rev acc, None) in
+  match upto [] toks with
+  | (seg, None) -> rrun32 s (calls_of_toks seg)
+  | (seg, Some (a, b, c, d, r)) ->
+      let s1 = rrun32 s (calls_of_toks seg) in
+      rrun_toks (set_rasterizer n32 s1 (z_of_dec a) (z_of_dec b) (z_of_dec c) (z_of_dec d)) r
+
 let run_ren x0 y0 w h toks =
   let s0 = rinit n32 (z_of_dec x0) (z_of_dec y0) (z_of_dec w) (z_of_dec h) in
-  rrun32 s0 (calls_of_toks toks)
+  rrun_toks s0 toks
 
 let () =
   reg "REN" (fun a ->
@@ -309,7 +321,7 @@ let () =
         let rec split acc = function "|" :: r -> (List.rev acc, r) | x :: r -> split (x :: acc) r | [] -> (List.rev acc, []) in
         let (ta, tb) = split [] toks in
         let s0 = rinit n32 (z_of_dec x0) (z_of_dec y0) (z_of_dec w) (z_of_dec h) in
-        let sa = rrun32 s0 (calls_of_toks ta) in
+        let sa = rrun_toks s0 ta in
         let na = List.length sa.r_log in
         (* B may start with "SR x0 y0 w h": SetRasterizer with another rectangle before B (the fresh Renderer gets that one) *)
         let (sa, s0, tb) = match tb with
@@ -317,11 +329,11 @@ let () =
               (set_rasterizer n32 sa (z_of_dec a0) (z_of_dec b0) (z_of_dec c0) (z_of_dec d0),
                rinit n32 (z_of_dec a0) (z_of_dec b0) (z_of_dec c0) (z_of_dec d0), r)
           | _ -> (sa, s0, tb) in
-        let sb = rrun32 sa (calls_of_toks tb) in
+        let sb = rrun_toks sa tb in
         let rec drop n l = if n = 0 then l else match l with _ :: r -> drop (n - 1) r | [] -> [] in
         let sel s = Printf.sprintf " | cs=%d ns=%d" (int_of_z s.r_csel) (int_of_z s.r_nsel) in
         let reused = String.concat " " (List.map rcall_str (drop na sb.r_log)) ^ sel sb in
-        let sf = rrun32 s0 (calls_of_toks tb) in
+        let sf = rrun_toks s0 tb in
         let fresh = String.concat " " (List.map rcall_str sf.r_log) ^ sel sf in
         reused ^ " || " ^ fresh
     | _ -> failwith "REUSE");
